@@ -140,17 +140,23 @@ func HarnessC14Real() {
 	ogAll := true
 	ogTitle := ""
 	var realOG []string
+	ogWebsite, ogImage := false, ""
 	for _, name := range []string{"title", "type", "url", "image"} {
 		v, present := ogVal(name)
 		c := v
 		if name == "type" && v != "" {
 			c = "article"
+			if vx.Choose("typekind", 2) == 1 {
+				c, ogWebsite = "website", true
+			}
 		}
 		if name == "url" && v != "" {
 			c = "http://h.t/og"
 		}
 		if name == "image" && v != "" {
-			c = "http://h.t/og.png"
+			// absolute, protocol-relative or root-relative: all are image values
+			c = []string{"http://h.t/og.png", "//h.t/og.png", "/og.png"}[vx.Choose("imgform", 3)]
+			ogImage = c
 		}
 		if present {
 			head += `<meta property="og:` + name + `" content="` + c + `">`
@@ -257,7 +263,11 @@ func HarnessC14Real() {
 		wantCopy = "ie-copy"
 	}
 	vx.Assert(info.Copyright == wantCopy, "Copyright does not come from the IE Reading View tag")
-	if ogAll && (artOrder == 1 || artOrder == 3) {
+	if ogAll && ogWebsite && artOrder != 0 {
+		vx.Cover("og-not-article")
+		vx.Assert(info.Article.Section != "og-section" && info.Article.PublishedTime != "2020-01-02", "article:* properties of an OpenGraph block whose og:type is not article are used as the article record")
+	}
+	if ogAll && !ogWebsite && (artOrder == 1 || artOrder == 3) {
 		vx.Cover("og-article")
 		vx.Assert(info.Article.PublishedTime == "2020-01-02", "an article:* property that follows og:type in a valid OpenGraph block is missing from the article record")
 		if artOrder == 1 {
@@ -266,8 +276,9 @@ func HarnessC14Real() {
 	}
 	if ogAll {
 		vx.Cover("og-valid")
-		vx.Assert(info.URL == "http://h.t/og" && info.Type == "Article", "valid OpenGraph block is not used for URL/Type")
-		vx.Assert(len(info.Images) > 0 && info.Images[0].URL == "http://h.t/og.png", "valid OpenGraph block is not used for Images")
+		// (a type other than article is not reported by the OpenGraph source: Type then comes from lower sources)
+		vx.Assert(info.URL == "http://h.t/og" && (ogWebsite || info.Type == "Article"), "valid OpenGraph block is not used for URL/Type")
+		vx.Assert(len(info.Images) > 0 && info.Images[0].URL == ogImage, "valid OpenGraph block is not used for Images")
 	} else {
 		vx.Assert(info.URL != "http://h.t/og", "OpenGraph data used although a required property is missing")
 	}
